@@ -44,7 +44,7 @@ def gen_trial(rng, profile):
                     body[0] += 1
                     req = {'cid': c['cid'], 'uid': c['uid'], 'mid': rng.choice([-2, -3, -4]), 'eph': c['eph'], 'new': False, 'body': body[0]}
                 if profile == 'adv' and 0.9 < kind <= 0.93: req['uid'] = c['uid'] + "'"     # restarted client, same id
-                if bal and kind > 0.9:        # a worker asks once more and shuts down in an orderly way: request and CLOSE are both queued when the splitter looks next
+                if (bal or profile == 'sync') and kind > 0.9:        # a worker asks once more and shuts down in an orderly way: request and CLOSE are both queued when the splitter looks next
                     ops.append({'k': 'd', 'j': c['out'], 'r': req})
                     body[0] += 1
                     req = {'cid': c['cid'], 'uid': c['uid'], 'mid': -3, 'eph': c['eph'], 'new': False, 'body': body[0]}
